@@ -44,6 +44,19 @@ func stopAtSkipN(f *ssa.Function) bool {
 // exceptionTypeOf resolves an error value to the Thrift protocol-exception type
 // id it carries: a direct NewProtocolException(c, …) or a package-level
 // variable initialised with one.
+func exceptionTypeOfDepth(P *Program, v ssa.Value, depth int) (int64, bool) {
+	if depth > 2 {
+		return 0, false
+	}
+	v = stripIface(v)
+	if c := staticCallNamed(v, "NewProtocolException"); c != nil {
+		if k, ok := c.Common().Args[0].(*ssa.Const); ok && k.Value != nil {
+			return k.Int64(), true
+		}
+	}
+	return 0, false
+}
+
 func exceptionTypeOf(P *Program, v ssa.Value) (int64, bool) {
 	v = stripIface(v)
 	if c := staticCallNamed(v, "NewProtocolException"); c != nil {
@@ -51,6 +64,24 @@ func exceptionTypeOf(P *Program, v ssa.Value) (int64, bool) {
 			return k.Int64(), true
 		}
 		return 0, false
+	}
+	// a repository helper every return of which builds an exception of one and the same type
+	if c := asCall(v); c != nil {
+		if cal := c.Common().StaticCallee(); cal != nil && inRepo(cal) && cal.Blocks != nil && cal.Name() != "NewProtocolException" && cal.Signature.Results().Len() == 1 {
+			var val int64
+			n := 0
+			for _, ret := range returnsOf(cal) {
+				t, ok := exceptionTypeOfDepth(P, ret.Results[0], 1)
+				if !ok || (n > 0 && t != val) {
+					return 0, false
+				}
+				val = t
+				n++
+			}
+			if n > 0 {
+				return val, true
+			}
+		}
 	}
 	if ld, ok := v.(*ssa.UnOp); ok && ld.Op == token.MUL {
 		if g, ok := ld.X.(*ssa.Global); ok && g.Pkg != nil {
